@@ -57,7 +57,9 @@ func isMutator(o int) bool {
 // are present (0/1)
 type kvState [3]int
 
-const fillerKeys = 130
+// fillerKeys: how many filler keys the "big" merge carries in the current scenario (130, or 9
+// in the medium variant: just beyond a small chunk size, and cheap enough to interleave fully)
+var fillerKeys = 130
 
 type kvOut struct {
 	v    int
@@ -244,7 +246,7 @@ func doStoreOp(s *flyt.SharedStore, op int) kvOut {
 		s.Merge(keepMerged(map[string]any{"b": 4}))
 	case oMergeBig:
 		m := map[string]any{"b": 3}
-		for i := 0; i < 130; i++ {
+		for i := 0; i < fillerKeys; i++ {
 			m[fmt.Sprintf("f%03d", i)] = 0
 		}
 		s.Merge(keepMerged(m))
@@ -304,6 +306,7 @@ func bruteLinearizable(init kvState, h []porcupine.Operation) bool {
 }
 
 type linScn struct {
+	medium  bool  // the "big" merge carries 9 filler keys instead of 130
 	lens    []int // ops per thread
 	first   int   // first op of thread 0 (fixed: sharding)
 	prefill bool
@@ -332,6 +335,10 @@ func (sc linScn) scenario() Scenario {
 	body := func() {
 		label = "skipped"
 		c13Merged = c13Merged[:0]
+		fillerKeys = 130
+		if sc.medium {
+			fillerKeys = 9
+		}
 		// choose the program
 		progs := make([][]int, len(sc.lens))
 		muts, reads := 0, 0
@@ -427,6 +434,9 @@ func (sc linScn) scenario() Scenario {
 		return label, pr
 	}
 	name := fmt.Sprintf("linearizable threads=%v first=%s prefill=%v core-alphabet=%v big-merge=%v", sc.lens, storeOpNames[sc.first], sc.prefill, sc.core3, sc.big)
+	if sc.medium {
+		name += " (9 filler keys)"
+	}
 	return Scenario{Name: name + boundName(sc.bound), Bound: sc.bound, Body: body, Check: check, NoMerge: false}
 }
 
@@ -439,6 +449,10 @@ func genC13(tier string) []Scenario {
 		out = append(out, linScn{lens: []int{1, 1}, first: oMergeBig, prefill: prefill, big: true, bound: unbounded}.scenario())
 		out = append(out, linScn{lens: []int{1, 2}, first: oMergeBig, prefill: prefill, big: true, bound: unbounded}.scenario())
 		out = append(out, linScn{lens: []int{2, 1}, first: oMergeBig, prefill: prefill, big: true, bound: unbounded}.scenario())
+	}
+	for _, prefill := range []bool{true, false} {
+		out = append(out, linScn{lens: []int{1, 1}, first: oMergeBig, prefill: prefill, big: true, medium: true, bound: unbounded}.scenario())
+		out = append(out, linScn{lens: []int{1, 2}, first: oMergeBig, prefill: prefill, big: true, medium: true, bound: unbounded}.scenario())
 	}
 	for first := 0; first < oMergeBig; first++ {
 		for _, prefill := range []bool{false, true} {
